@@ -1691,7 +1691,8 @@ class WindowFrameAnalyticFunction(AnalyticFunction):
         def __str__(self) -> str:
             # pylint: disable=E1101
             return "{value} {modifier}".format(
-                value=self.value or "UNBOUNDED",
+                # 0 is a valid offset (the current row itself), only a missing value means UNBOUNDED
+                value="UNBOUNDED" if self.value is None else self.value,
                 modifier=self.modifier,  # type:ignore[attr-defined]
             )
 
